@@ -302,6 +302,7 @@ impl<const N: usize> Subscriptions<N> {
     {
         let (sub, buf, next_max_seen_attr_change_id) = self.with(buffers, |state, buffers| {
             let (sub, buf) = state.add::<B>(
+                now,
                 fabric_idx,
                 peer_node_id,
                 min_int_secs,
@@ -783,6 +784,7 @@ impl<const N: usize> SubscriptionsInner<N> {
     #[allow(clippy::too_many_arguments)]
     fn add<'a, B>(
         &mut self,
+        now: Instant,
         fab_idx: NonZeroU8,
         peer_node_id: u64,
         min_int_secs: u16,
@@ -815,6 +817,7 @@ impl<const N: usize> SubscriptionsInner<N> {
             min_int_secs,
             max_int_secs,
             reported_at: Instant::MAX,
+            accepted_at: now,
             retry_at: Instant::MIN,
             fail_count: 0,
             max_seen_attr_change_id,
@@ -1019,6 +1022,11 @@ pub struct Subscription {
     /// The timestamp of the last SUCCESSFUL report sent to this subscription. Used to decide when the next report is due based on the min/max intervals — and, crucially, when to give up: `is_expired` measures `max_int` from here, so a run of *failed* reports (which do NOT advance it) eventually expires the subscription rather than retrying forever.
     /// Set to `Instant::MAX` when the subscription is created to indicate that no report has been sent yet, so the first report is due immediately. After the first successful report, it is updated to the actual timestamp of that report.
     reported_at: Instant,
+    /// When the subscription was accepted, or resumed after a restart. Stands in for
+    /// `reported_at` in [`Self::is_expired`] for as long as no report has been
+    /// delivered (`reported_at == Instant::MAX`), so that a resumed subscription
+    /// whose reports keep failing is given up on as well, rather than retried forever.
+    accepted_at: Instant,
     /// Earliest instant at which a report may be attempted again after a *failed*
     /// send (see [`ReportContext::set_keep_retry`]). `Instant::MIN` means no retry
     /// is pending (normal operation). Gates the report-timing helpers so a peer we
@@ -1042,7 +1050,15 @@ impl Subscription {
 
     /// Return `true` if the subscription is expired and should be removed, or `false` if it is still active.
     pub fn is_expired(&self, now: Instant) -> bool {
-        self.reported_at
+        // Not reported on yet (resumed after a restart and not primed since): there is
+        // no last success to measure from, so measure from when it was resumed.
+        let since = if self.reported_at == Instant::MAX {
+            self.accepted_at
+        } else {
+            self.reported_at
+        };
+
+        since
             .checked_add(embassy_time::Duration::from_secs(self.max_int_secs as _))
             .map(|expiry| expiry <= now)
             .unwrap_or(false)
@@ -1763,6 +1779,7 @@ pub struct VerifSub {
     pub min_int_secs: u16,
     pub max_int_secs: u16,
     pub reported_at: Instant,
+    pub accepted_at: Instant,
     pub retry_at: Instant,
     pub fail_count: u8,
     pub max_seen_attr_change_id: u64,
@@ -1819,6 +1836,7 @@ impl Subscription {
             min_int_secs: self.min_int_secs,
             max_int_secs: self.max_int_secs,
             reported_at: self.reported_at,
+            accepted_at: self.accepted_at,
             retry_at: self.retry_at,
             fail_count: self.fail_count,
             max_seen_attr_change_id: self.max_seen_attr_change_id,
@@ -3687,6 +3705,83 @@ mod tests {
         assert_eq!(rctx.subscription().ids().peer_node_id, 101);
         assert!(rctx.should_report_attr(1, 2, 3));
         rctx.set_keep();
+    }
+
+    #[cfg(feature = "persistent-subscriptions")]
+    #[test]
+    fn resumed_subscription_whose_reports_keep_failing_expires() {
+        // A subscription resumed after a restart sits in the table un-primed
+        // (`reported_at == Instant::MAX`). If every report to it fails it must be
+        // given up on one maximum interval after it was resumed, not retried forever.
+        struct OneRecord(std::vec::Vec<u8>);
+
+        impl KvBlobStore for &mut OneRecord {
+            fn load<'a>(&mut self, key: u16, buf: &'a mut [u8]) -> Result<Option<&'a [u8]>, Error> {
+                if key == PERSISTENT_SUBSCRIPTIONS_START && !self.0.is_empty() {
+                    buf[..self.0.len()].copy_from_slice(&self.0);
+                    Ok(Some(&buf[..self.0.len()]))
+                } else {
+                    Ok(None)
+                }
+            }
+
+            fn store(&mut self, key: u16, data: &[u8], _buf: &mut [u8]) -> Result<(), Error> {
+                if key == PERSISTENT_SUBSCRIPTIONS_START {
+                    self.0 = data.to_vec();
+                }
+                Ok(())
+            }
+
+            fn remove(&mut self, _key: u16, _buf: &mut [u8]) -> Result<(), Error> {
+                Ok(())
+            }
+        }
+
+        let mut kv = OneRecord(std::vec::Vec::new());
+        let mut buf = [0u8; 512];
+        let base = Instant::now();
+
+        {
+            let subs: Subscriptions<1> = Subscriptions::new();
+            let pool = TestPool::<2>::new();
+            let subs_bufs: SubscriptionsBuffers<TestPool<2>, 1> = SubscriptionsBuffers::new();
+
+            let mut rctx = add_sub(&subs, &subs_bufs, &pool, base, 1, 100, 1, 60);
+            rctx.set_keep();
+            drop(rctx);
+
+            subs.persist_all(&subs_bufs, &mut kv, &mut buf).unwrap();
+        }
+
+        // Restart.
+        let subs: Subscriptions<1> = Subscriptions::new();
+        let pool = TestPool::<2>::new();
+        let subs_bufs: SubscriptionsBuffers<TestPool<2>, 1> = SubscriptionsBuffers::new();
+
+        subs.load_persist(&pool, &subs_bufs, &mut kv, &mut buf, base, 0)
+            .unwrap();
+
+        // Every report fails; the reporter sweeps expired subscriptions on each wake-up.
+        let mut now = base;
+        for _ in 0..20 {
+            let expired = subs.remove(&subs_bufs, |sub| sub.is_expired(now).then_some("expired"));
+            if expired {
+                break;
+            }
+
+            if let Some(mut rctx) = subs.report(now, 0, &subs_bufs) {
+                rctx.set_keep_retry();
+            }
+
+            now += Duration::from_secs(10);
+        }
+
+        assert!(
+            now <= base + Duration::from_secs(60),
+            "not expired one maximum interval after it was resumed"
+        );
+        assert!(subs.report(now, 0, &subs_bufs).is_none());
+        assert_eq!(subs.load_stats(None).current_subscriptions, 0);
     }
 
     #[test]
